@@ -44,6 +44,10 @@ def render(ops):
                         return None
             elif op[field] not in num[kind]:
                 return None
+        if name == 'expect':
+            for x in op['X']:
+                if not isinstance(x, str) and x[1] not in num['mock']:
+                    return None
         if name in CREATES:
             kind, field = CREATES[name]
             if op[field] in num[kind]:
@@ -57,7 +61,8 @@ def render(ops):
         elif name == 'expect':
             lines.append(' '.join(
                 ['expect', n('exp', op['e']), n('mock', op['o']), str(op['fn']), 'P'] + op['P'] + ['W'] + op['W'] +
-                ['X'] + op['X'] + ['R', op['R'], 'T', str(op['lo']), str(op['hi']), '1' if op['rt'] else '0', 'S'] +
+                ['X'] + [x if isinstance(x, str) else 'call:%s:%d:%s' % (n('mock', x[1]), x[2], ':'.join(str(v) for v in x[3]))
+                         for x in op['X']] + ['R', op['R'], 'T', str(op['lo']), str(op['hi']), '1' if op['rt'] else '0', 'S'] +
                 [n('seq', s) for s in op['S']] + ['O', str(op['tk']), str(op['sf']), str(op.get('rc', 0))]))
         elif name == 'call':
             lines.append(' '.join(['call', n('mock', op['o']), str(op['fn'])] + [str(a) for a in op['a']]))
@@ -104,6 +109,8 @@ PROFILES = {
     'watch':    dict(expect=2, call=3, query=4, release=1, mockops=0.5, seqops=3, watch=14, tracer=0, reporter=0),
     'trace':    dict(expect=7, call=16, query=1, release=2, mockops=1, seqops=1, watch=0, tracer=6, reporter=3),
     'actions':  dict(expect=10, call=20, query=1, release=2, mockops=1, seqops=1, watch=0, tracer=1, reporter=0),
+    # re-entrant side effects: an expectation's SIDE_EFFECT calls another mock function (of higher index, so nesting ends)
+    'nest':     dict(expect=10, call=20, query=2, release=2, mockops=0.5, seqops=1, watch=0, tracer=3, reporter=0.5),
 }
 
 RT_BOUNDS = [(0, 0), (1, 1), (1, 1), (0, 1), (1, 2), (2, 2), (0, INF), (1, INF), (2, 3), (0, 2), (2, 1), (3, 1)]
@@ -154,6 +161,10 @@ class Gen:
             seqd = [s for s in cand if s['nsq'] > 0]
             if seqd and r.random() < 0.7:
                 cand = seqd
+        elif self.profile == 'nest':
+            act = [s for s in cand if (s['ns'] >= 1 and s['fn'] < 3) or s['fn'] >= 2]
+            if act and r.random() < 0.8:
+                cand = act
         elif self.profile == 'actions':
             act = [s for s in cand if s['nw'] + s['ns'] >= 2]
             if act and r.random() < 0.7:
@@ -182,6 +193,11 @@ class Gen:
         if fn == 2:
             W = [w if r.random() < 0.7 else 'gt:1:0' for w in W]
         X = [('log' if r.random() < 0.85 else r.choice(['std', 'other'])) for _ in range(sh['ns'])]
+        pnest = {'nest': 0.7, 'actions': 0.12, 'trace': 0.12}.get(self.profile, 0.0)
+        if sh['ns'] and fn < 3 and r.random() < pnest:
+            fn2 = r.randrange(fn + 1, 4)
+            X[r.randrange(sh['ns'])] = ('call', o if r.random() < 0.8 else r.choice(list(self.mocks)), fn2,
+                                        [r.choice([0, 1, 2]) for _ in range(SH.FN_ARITY[fn2])])
         rc = 0
         if sh['rk'] == 'none':
             R = 'none'
@@ -741,6 +757,80 @@ def enum_actions(rng=None, sample=None):
             ops.append(dict(op='call', o=0, fn=1, a=[a]))
         ops.append(dict(op='release', e=1))
         ops.append(dict(op='call', o=0, fn=1, a=[1]))
+        yield ops
+
+
+def enum_nested(rng=None, sample=None):
+    """re-entrant calls: the outer expectation on fi(int) (fn 1) has 1-2 side effects one of which calls g(int,int)
+    (fn 2) or fi(long) (fn 3) of the same or another mock; inner expectation: allowing / exactly once / forbidding /
+    absent / throwing; with and without a tracer, with outer and inner in one sequence in both orders; repeated calls."""
+    out = []
+    for ns, pos in ((1, 0), (3, 0), (3, 1), (3, 2)):
+        for inner_fn in (2, 3):
+            for inner in ('allow', 'once', 'forbid', 'absent', 'throws', 'nomatch'):
+                for other_mock in (False, True):
+                    for tracer in (False, True):
+                        for seq in ('none', 'outer-first', 'inner-first'):
+                            for outer_tail in ('log', 'std'):
+                                out.append((ns, pos, inner_fn, inner, other_mock, tracer, seq, outer_tail))
+    picks = out if sample is None else [rng.choice(out) for _ in range(sample)]
+    for (ns, pos, inner_fn, inner, other_mock, tracer, seq, outer_tail) in picks:
+        if seq != 'none' and inner_fn == 3:
+            continue                      # no sequenced shape is compiled for fi(long)
+        if seq != 'none' and ns != 1:
+            continue
+        ops = [dict(op='mock', o=0, movable=True)]
+        tgt = 0
+        if other_mock:
+            ops.append(dict(op='mock', o=1, movable=True))
+            tgt = 1
+        S = []
+        if seq != 'none':
+            ops.append(dict(op='seq', s=0))
+            S = [0]
+        if tracer:
+            ops.append(dict(op='tracer', t=0))
+        args = [1, 2] if inner_fn == 2 else [1]
+        X = ['log'] * ns
+        X[pos] = ('call', tgt, inner_fn, args)
+        if ns == 3 and pos < 2 and outer_tail == 'std':
+            X[2] = 'std'
+        if ns == 1:
+            outer = _exp(0, 0, 1, ['_'], 0, INF if not S else 2, S, X=X, rt=bool(S), tk=1 if S else 3, sf=1 if S else 0, R='val:100')
+        else:
+            outer = _exp(0, 0, 1, ['_'], 0, INF, [], X=X, rt=False, tk=3, sf=0, R='val:100')
+        P = ['_', '_'] if inner_fn == 2 else ['_']
+        if inner == 'nomatch':
+            P = ['eq:7'] + P[1:]
+        inner_exp = None
+        if inner == 'allow':
+            inner_exp = _exp(1, tgt, inner_fn, P, 0, INF if not S else 2, S if inner_fn == 2 else [], rt=bool(S) and inner_fn == 2,
+                             tk=1 if (S and inner_fn == 2) else 3, sf=1 if (S and inner_fn == 2) else 0, R='val:201')
+        elif inner in ('once', 'nomatch'):
+            inner_exp = _exp(1, tgt, inner_fn, P, 1, 1, S if inner_fn == 2 else [], rt=True, tk=1, sf=1 if (S and inner_fn == 2) else 0, R='val:201')
+        elif inner == 'forbid':
+            inner_exp = _exp(1, tgt, inner_fn, P, 0, 0, [], rt=False, tk=2, sf=0, R='none')
+        elif inner == 'throws':
+            inner_exp = _exp(1, tgt, inner_fn, P, 0, INF, [], rt=False, tk=3, sf=0, R='std')
+            inner_exp['rc'] = 1
+        if seq == 'inner-first' and inner_exp is not None:
+            ops += [inner_exp, dict(outer, e=1), ]
+            ops[-1]['e'] = 1
+            ops[-2] = dict(inner_exp, e=0)
+        else:
+            ops.append(outer)
+            if inner_exp is not None:
+                ops.append(inner_exp)
+        for a in (1, 2):
+            ops.append(dict(op='call', o=0, fn=1, a=[a]))
+            ops.append(dict(op='sat', e=0))
+            if inner_exp is not None:
+                ops.append(dict(op='satd', e=1))
+        ops.append(dict(op='call', o=tgt, fn=inner_fn, a=args))
+        if tracer:
+            ops.append(dict(op='killtracer', t=0))
+        ops.append(dict(op='call', o=0, fn=1, a=[3]))
+        ops.append(dict(op='kill', o=0))
         yield ops
 
 
